@@ -23,6 +23,7 @@ pub enum Derived {
     Get,
     Set,
     GetLed,
+    GetAdc,
     #[command(name = "старт")]
     Start,
     #[command(name = "стоп")]
@@ -30,7 +31,7 @@ pub enum Derived {
     Exit,
 }
 impl Names for Derived {
-    const NAMES: &'static [&'static str] = &["öffne", "get", "set", "get-led", "старт", "стоп", "exit"];
+    const NAMES: &'static [&'static str] = &["öffne", "get", "set", "get-led", "get-adc", "старт", "стоп", "exit"];
 }
 
 /// transcription of specs/80_autocomplete_spec.rs merge_step, folded over the candidates
@@ -244,7 +245,7 @@ impl Model {
 const KEYS: &[&[u8]] = &[
     b"a", b"b", b" ", b"-", b"h", b"\"", b"\\", "é".as_bytes(), "€".as_bytes(), "😀".as_bytes(), b"\x08", b"\x09", b"\r", b"\n", b"\r\n", b"\x1b[A",
     b"\x1b[B", b"\x1b[C", b"\x1b[D", b"\x1b[D", b"\x1b[1;5C", b"\x1b[3~", b"\x00", b"\x1b", b"\x7f", b"\xc3", b"\xa9", b"\xff", b"help", b"he", b"--help",
-    b"-h", b"--", b"cmd", b"\"\"", b"g", b"ge", b"get-", b"s", b"e", "ö".as_bytes(), "ст".as_bytes(), "с".as_bytes(), b"\x09", b"\x09",
+    b"-h", b"--", b"cmd", b"\"\"", b"g", b"ge", b"get-", b"s", b"e", b"get-  \x1b[D\x1b[D\x09", "ст   \x1b[D\x1b[D\x09".as_bytes(), b"get \x1b[D\x09", "ö".as_bytes(), "ст".as_bytes(), "с".as_bytes(), b"\x09", b"\x09",
 ];
 
 #[derive(Clone, Debug)]
@@ -278,7 +279,7 @@ pub fn run(r: &mut Rng, iters: usize, only: &str) -> Option<Cex> {
     for it in 0..iters.max(3000) {
         let c = if it % 2 == 0 { one_session::<RawCommand<'static>>(r, it, only) } else { one_session::<Derived>(r, it, only) };
         if let Some(mut c) = c {
-            c.input = format!("commands={} {}", if it % 2 == 0 { "raw" } else { "derived[öffne,get,set,get-led,старт,стоп,exit]" }, c.input);
+            c.input = format!("commands={} {}", if it % 2 == 0 { "raw" } else { "derived[öffne,get,set,get-led,get-adc,старт,стоп,exit]" }, c.input);
             return Some(c);
         }
     }
